@@ -49,6 +49,12 @@ func scenarioC12(r *Run) {
 	var order []string
 	answerAt := -1 // -1: answer all; 0: none; k: only the k-th transmission
 	lateAnswer := false
+	// atEdge: the answer to the k-th transmission is delayed so that it reaches
+	// the agent right when that wait expires (and later transmissions are
+	// answered at once): processed before or after the expiry, the request
+	// has been answered
+	atEdge := false
+	edgeOff := time.Duration(0)
 	note := func(m *RxMsg) (*txRec, int) {
 		key := fmt.Sprintf("%d/%d", m.Msg.MessageType(), m.Msg.Sequence())
 		t := txs[key]
@@ -70,6 +76,17 @@ func scenarioC12(r *Run) {
 			return false
 		}
 		if n == answerAt {
+			if atEdge {
+				seq := m.Msg.Sequence()
+				r.Sim.After(tout-400*time.Microsecond+edgeOff, func() {
+					p.SendMsg(message.NewHeartbeatResponse(seq, ie.NewRecoveryTimeStamp(p.TS)))
+				})
+				r.Fault("answer-at-retransmission-instant")
+				return false
+			}
+			return true
+		}
+		if atEdge && n > answerAt {
 			return true
 		}
 		r.Fault("heartbeat-answer-dropped")
@@ -78,7 +95,7 @@ func scenarioC12(r *Run) {
 	_ = lateAnswer
 	switch sub {
 	case 0:
-		c12Heartbeats(r, p, int(N), tout, hbi, &answerAt, txs, &order)
+		c12Heartbeats(r, p, int(N), tout, hbi, &answerAt, txs, &order, &atEdge, &edgeOff)
 	case 1:
 		c12PeerHeartbeats(r, p, hbi, txs, &order)
 	case 2:
@@ -107,7 +124,7 @@ func checkTx(r *Run, what string, t *txRec, wantCount int, exact bool, N int, to
 	}
 }
 
-func c12Heartbeats(r *Run, p *Peer, N int, tout, hbi time.Duration, answerAt *int, txs map[string]*txRec, order *[]string) {
+func c12Heartbeats(r *Run, p *Peer, N int, tout, hbi time.Duration, answerAt *int, txs map[string]*txRec, order *[]string, atEdge *bool, edgeOff *time.Duration) {
 	r.StartAgent()
 	if !r.AgentAlive() || p.Associate() == nil {
 		r.Violate("C12", "no-association", "association failed")
@@ -167,14 +184,29 @@ func c12Heartbeats(r *Run, p *Peer, N int, tout, hbi time.Duration, answerAt *in
 		return t
 	}
 	for _, k := range ks {
-		variant := []string{"", "", "dup", "wrongseq"}[r.Ch.Choose(4, "variant")]
+		variant := []string{"", "", "dup", "wrongseq", "edge"}[r.Ch.Choose(5, "variant")]
+		*atEdge = variant == "edge" && k <= N
+		if *atEdge {
+			*edgeOff = time.Duration(r.Ch.Choose(200, "edge-us")-100) * time.Microsecond
+		} else if variant == "edge" {
+			variant = ""
+		}
 		t := cycle(k, variant)
+		*atEdge = false
 		if t == nil || len(r.Violations) > 0 {
 			return
 		}
 		r.Skel(fmt.Sprintf("k=%d%s", k, variant))
 		r.Op("heartbeat cycle: answer transmission %d of %d (%s): %d transmissions seen", k, N+1, variant, len(t.at))
-		checkTx(r, "heartbeat", t, k, true, N, tout)
+		if variant == "edge" {
+			// k or k+1 transmissions, depending on which side of the expiry the answer fell
+			if len(t.at) != k && len(t.at) != k+1 {
+				r.Violate("C12", "transmission-count:heartbeat-edge", "answer to transmission %d arrived at the retransmission instant: %d transmissions seen, %d or %d expected", k, len(t.at), k, k+1)
+			}
+			checkTx(r, "heartbeat", t, 0, false, N, tout)
+		} else {
+			checkTx(r, "heartbeat", t, k, true, N, tout)
+		}
 		// still associated: sessions intact, peer heartbeat answered
 		if p.Heartbeat() == nil && r.AgentAlive() {
 			r.Violate("C12", "association-lost-although-answered", "after the %d-th transmission was answered the association no longer answers heartbeats\n%s", k, strings.Join(r.Sim.BlockedTable(), "\n"))
